@@ -128,7 +128,7 @@ def build_coq(prop: str = None) -> float:
 
 
 def coqc(vfile: Path, timeout: int = 900) -> subprocess.CompletedProcess:
-    cmd = "ulimit -s unlimited 2>/dev/null; exec timeout %d coqc -q -Q %s Verif -w -all %s" % (
+    cmd = "ulimit -s unlimited 2>/dev/null; ulimit -v 24000000 2>/dev/null; exec timeout %d coqc -q -Q %s Verif -w -all %s" % (
         timeout, COQ, vfile)
     return subprocess.run(["bash", "-c", cmd], capture_output=True, text=True, cwd=str(vfile.parent))
 
